@@ -14,6 +14,8 @@ pub(crate) mod space_descriptor;
 mod vmrequest;
 
 pub(crate) use self::accounting::PageAccounting;
+#[cfg(mmtk_verif)]
+pub use self::accounting::PageAccounting as VerifPageAccounting;
 pub(crate) use self::blockpageresource::BlockPageResource;
 pub(crate) use self::freelistpageresource::FreeListPageResource;
 pub use self::gc_trigger::GCTriggerPolicy;
